@@ -33,19 +33,15 @@ class MultichainPolicyIteration(Plans):
             max_iterations=self.max_iterations
         )
         state_gain, action_gain, state_bias, action_bias, _, iterations = results
-        # the tie tolerance scales with the magnitude of the values (round-off does too)
+        # the tie tolerance scales with the magnitude of the tables (round-off does too), and the
+        # value maximisers are taken among the gain maximisers so that no row comes out empty
+        finite = np.concatenate([action_gain[np.isfinite(action_gain)], action_bias[np.isfinite(action_bias)]])
+        atol = 10**(-self.VALUE_DECIMAL_PRECISION)*max(1, np.abs(finite).max(initial=0))
         max_gain = action_gain.max(-1, keepdims=True)
-        gain_max_actions = np.isclose(
-            action_gain, max_gain,
-            atol=10**(-self.VALUE_DECIMAL_PRECISION)*np.maximum(1, np.abs(max_gain)),
-            rtol=0
-        )
-        max_bias = action_bias.max(-1, keepdims=True)
-        bias_max_actions = np.isclose(
-            action_bias, max_bias,
-            atol=10**(-self.VALUE_DECIMAL_PRECISION)*np.maximum(1, np.abs(max_bias)),
-            rtol=0
-        )
+        gain_max_actions = np.isclose(action_gain, max_gain, atol=atol, rtol=0)
+        gain_max_bias = np.where(gain_max_actions, action_bias, -np.inf)
+        max_bias = gain_max_bias.max(-1, keepdims=True)
+        bias_max_actions = np.isclose(gain_max_bias, max_bias, atol=atol, rtol=0)
         policy_matrix = gain_max_actions & bias_max_actions
         policy_matrix = policy_matrix/policy_matrix.sum(-1, keepdims=True)
         policy=TabularPolicy.from_state_action_lists(
